@@ -1,13 +1,15 @@
-\* schedules of the model as the code is (both deviations), 2 senders, 1 chunk
+\* schedules of the model as the code is (gate gap; the failed-renewal deviation was repaired in 61b5747), 2 senders, 1 chunk
 CONSTANTS
   Senders = {"p1", "p2"}
-  MaxChunks = 1
+  MaxChunks = 2
   Seq0 = 10
   MaxSeq = 100
   RenewMayFail = TRUE
   Gen = TRUE
+  MayAbort = TRUE
+  Dev_ResetSeqOnAbort = FALSE
   Dev_GateGap = TRUE
-  Dev_FailedRenewSeq = TRUE
+  Dev_FailedRenewSeq = FALSE
 INIT Init
 NEXT Next
 INVARIANTS InvEmit
